@@ -153,3 +153,113 @@ def run_graphs(chk, drv, prepared):
             mism += 1
             chk.unproved_obligation("correspondence:best_algorithm", f"model {sx(rep)[:400]} vs code {str(real)[:400]}", pr.case())
     chk.corr("best_algorithm+lowerable", len(prepared), mism)
+
+
+def lattice_order_check(chk, n_graphs, drv=None):
+    """first-match property of generate_subgraphs (the order of the emitted loops and of the if/else-if
+    chain): for every set P of present sparse tensors, the first subgraph whose sparse tensors are all in P
+    must be the one that keeps every tensor of P (= the graph with exactly the absent tensors exhausted).
+    A failure of this structural obligation is followed by a search for a concrete input on which the
+    kernel of that expression is wrong (value, well-formedness, machine error)."""
+    import itertools
+
+    from tensora.format import Mode
+    from tensora.iteration_graph._generate_ir import generate_subgraphs
+    from tensora.iteration_graph.identifiable_expression import ast as ia
+    from tensora.iteration_graph.iteration_graph import IterationNode, TerminalNode
+
+    rng = chk.rng
+    bad = 0
+    for _ in range(n_graphs):
+        n = rng.randint(2, 6)
+        leaves = [ia.Tensor(f"{k}_t{k}", f"t{k}", ("i",), (Mode.compressed,)) for k in range(n)]
+        rng.shuffle(leaves)
+
+        def tree(ls):
+            if len(ls) == 1:
+                return ls[0]
+            k = rng.randint(1, len(ls) - 1)
+            return rng.choice([ia.Add, ia.Multiply])(tree(ls[:k]), tree(ls[k:]))
+
+        expr = tree(leaves)
+        node = IterationNode("i", None, TerminalNode(expr))
+        subs = generate_subgraphs(node)
+        keys = [set(g.compressed_dimensions()) for g in subs]
+        ids = [t.id for t in leaves]
+        chk.count("lattice_graphs")
+        failed = None
+        for r in range(len(ids) + 1):
+            for present in itertools.combinations(ids, r):
+                P = set(present)
+                first = next((k for k in keys if k <= P), None)
+                g = node
+                for t in ids:
+                    if t not in P:
+                        g = g.exhaust_tensor(t)
+                want = set(g.compressed_dimensions())
+                if first != want and failed is None:
+                    failed = (sorted(P), sorted(want), sorted(first) if first is not None else None)
+        if failed is not None:
+            bad += 1
+            if bad <= 3:
+                found = _search_lattice_input(chk, drv, expr) if drv is not None else None
+                case = {"expression": sx(export_id(expr)), "present": failed[0], "first_match": failed[2], "should_be": failed[1]}
+                if found is not None:
+                    chk.violation("co-iteration order is wrong (a smaller subgraph precedes a larger one) and the kernel misbehaves: " + found[0],
+                                  dict(case, **found[1]), expected=found[2], got=found[3])
+                else:
+                    chk.unproved_obligation("lemma:subgraphs_first_match", "the first loop/branch whose sparse tensors are all present is not the one that keeps every present tensor", case)
+    chk.count("lattice_order_violations", bad)
+
+
+def _id_text(e):
+    from tensora.iteration_graph.identifiable_expression import ast as ia
+
+    if isinstance(e, ia.Tensor):
+        return f"{e.name}(i)"
+    l, r = _id_text(e.left), _id_text(e.right)
+    if isinstance(e, ia.Add):
+        return f"{l} + {r}"
+    if isinstance(e.left, ia.Add):
+        l = f"({l})"
+    if isinstance(e.right, (ia.Add, ia.Multiply)):
+        r = f"({r})"
+    return f"{l} * {r}"
+
+
+def _search_lattice_input(chk, drv, expr):
+    """run the evaluate kernel of `a(i) = expr` (all-sparse inputs, sparse and dense output) on random
+    inputs; returns (what, case, expected, got) for the first wrong result"""
+    from . import kernels, kruns, problems
+    from .gen import parse_fmt
+
+    rng = chk.rng
+    text = "a(i) = " + _id_text(expr)
+    for out_fmt in ("s", "d"):
+        a = problems.parse(text)
+        fm = {n: parse_fmt("s") for n in a.variable_orders()}
+        fm["a"] = parse_fmt(out_fmt)
+        pr = kruns.Prepared(text, fm)
+        if pr.problem is None or not pr.generate():
+            continue
+        items = []
+        for _ in range(60):
+            sizes = {"i": rng.choice([4, 6, 8])}
+            ins = {}
+            for name, t in pr.tensors_of().items():
+                ins[name] = (problems.random_input(rng, (sizes["i"],), rng.choice([0.2, 0.5, 0.8]), values=(1, 2, 3, -1)), (sizes["i"],))
+            items.append((pr, sizes, ins))
+        for (pr_, sizes, ins), r in zip(items, kruns.machine_runs(drv, items, kinds=("evaluate",))):
+            case = pr_.case(sizes, ins)
+            if r.problems:
+                return (r.problems[0][1], {"kernel_case": case}, None, None)
+            raw = r.raw_evaluate
+            if raw is None:
+                continue
+            wf = kernels.wf_problems(raw)
+            if wf:
+                return ("result is not well-formed: " + "; ".join(wf), {"kernel_case": case}, None, raw.levels)
+            exp = pr_.expected(sizes, ins)
+            if not kruns.values_equal(raw.decode(), exp):
+                return ("value differs from the assignment's meaning", {"kernel_case": case}, sorted((list(k), v) for k, v in exp.items() if v), sorted((list(k), v) for k, v in raw.decode().items()))
+    return None
